@@ -95,6 +95,9 @@ func init() {
 		if err := mime.CheckTracePurity(run, 2*n); err != nil {
 			return err
 		}
+		if err := mime.CheckHistoryPurity(run, n); err != nil {
+			return err
+		}
 		// request bodies read at the same moment (Request.ReadEntity, every provider)
 		entity.CheckConcurrentReads(run, sizes(run, 8, 80))
 		// batches biased towards what overlapping requests can disturb (several passing container
